@@ -1,4 +1,4 @@
-import Ypv.Model.Anchors
+import Ypv.Spec.Anchors
 /-! Helper lemmas for the anchor-conflict model (C10). -/
 namespace Ypv.Anchors
 open Ypv
@@ -110,5 +110,836 @@ theorem defsFrom_nodup : ∀ (l : List Anchored) (seen : List Nat), OneObj l →
       have := h a (List.mem_cons_of_mem _ ha) (t, v) List.mem_cons_self h1
       apply h2
       rw [this]; exact List.mem_cons_self
+
+end Ypv.Anchors
+
+namespace Ypv.Anchors
+open Ypv
+
+/-! ### Tag maps: `rename` and `replaceIn` act occurrence by occurrence -/
+
+/-- Apply `f` to every anchored scalar of a document. -/
+def mapTags (f : Anchored → Anchored) : ANode → ANode
+  | .scalar (some t) v => .scalar (some (f (t, v)).1) (f (t, v)).2
+  | .scalar none v => .scalar none v
+  | .seq items => .seq (mapList f items)
+  | .map es => .map (mapEntries f es)
+where
+  mapList (f : Anchored → Anchored) : List ANode → List ANode
+    | [] => []
+    | n :: ns => mapTags f n :: mapList f ns
+  mapEntries (f : Anchored → Anchored) : List (Key × ANode) → List (Key × ANode)
+    | [] => []
+    | (k, n) :: es => (k, mapTags f n) :: mapEntries f es
+
+def renF (old new : Str) (a : Anchored) : Anchored :=
+  if a.1.name = old then ({ a.1 with name := new }, a.2) else a
+
+def replF (repl : Anchored) (a : Anchored) : Anchored :=
+  if a.1.name = repl.1.name then repl else a
+
+mutual
+theorem rename_eq_mapTags (o n : Str) : (d : ANode) → rename o n d = mapTags (renF o n) d
+  | .scalar (some t) v => by
+      simp only [rename, mapTags, renF]
+      split <;> rfl
+  | .scalar none v => by simp [rename, mapTags]
+  | .seq items => by simp only [rename, mapTags]; rw [renameList_eq o n items]
+  | .map es => by simp only [rename, mapTags]; rw [renameEntries_eq o n es]
+theorem renameList_eq (o n : Str) : (l : List ANode) → rename.renameList o n l = mapTags.mapList (renF o n) l
+  | [] => rfl
+  | x :: xs => by simp only [rename.renameList, mapTags.mapList]; rw [rename_eq_mapTags o n x, renameList_eq o n xs]
+theorem renameEntries_eq (o n : Str) : (l : List (Key × ANode)) →
+    rename.renameEntries o n l = mapTags.mapEntries (renF o n) l
+  | [] => rfl
+  | (k, x) :: xs => by
+      simp only [rename.renameEntries, mapTags.mapEntries]; rw [rename_eq_mapTags o n x, renameEntries_eq o n xs]
+end
+
+mutual
+theorem replaceIn_eq_mapTags (r : Anchored) : (d : ANode) → replaceIn r d = mapTags (replF r) d
+  | .scalar (some t) v => by
+      simp only [replaceIn, mapTags, replF]
+      split <;> rfl
+  | .scalar none v => by simp [replaceIn, mapTags]
+  | .seq items => by simp only [replaceIn, mapTags]; rw [replaceList_eq r items]
+  | .map es => by simp only [replaceIn, mapTags]; rw [replaceEntries_eq r es]
+theorem replaceList_eq (r : Anchored) : (l : List ANode) → replaceIn.replaceList r l = mapTags.mapList (replF r) l
+  | [] => rfl
+  | x :: xs => by simp only [replaceIn.replaceList, mapTags.mapList]; rw [replaceIn_eq_mapTags r x, replaceList_eq r xs]
+theorem replaceEntries_eq (r : Anchored) : (l : List (Key × ANode)) →
+    replaceIn.replaceEntries r l = mapTags.mapEntries (replF r) l
+  | [] => rfl
+  | (k, x) :: xs => by
+      simp only [replaceIn.replaceEntries, mapTags.mapEntries]; rw [replaceIn_eq_mapTags r x, replaceEntries_eq r xs]
+end
+
+mutual
+theorem occs_mapTags (f : Anchored → Anchored) : (d : ANode) → occs (mapTags f d) = (occs d).map f
+  | .scalar (some t) v => by simp [mapTags, occs]
+  | .scalar none v => by simp [mapTags, occs]
+  | .seq items => by simp only [mapTags, occs]; exact occsList_mapTags f items
+  | .map es => by simp only [mapTags, occs]; exact occsEntries_mapTags f es
+theorem occsList_mapTags (f : Anchored → Anchored) : (l : List ANode) →
+    occs.occsList (mapTags.mapList f l) = (occs.occsList l).map f
+  | [] => rfl
+  | x :: xs => by
+      simp only [mapTags.mapList, occs.occsList, List.map_append]
+      rw [occs_mapTags f x, occsList_mapTags f xs]
+theorem occsEntries_mapTags (f : Anchored → Anchored) : (l : List (Key × ANode)) →
+    occs.occsEntries (mapTags.mapEntries f l) = (occs.occsEntries l).map f
+  | [] => rfl
+  | (k, x) :: xs => by
+      simp only [mapTags.mapEntries, occs.occsEntries, List.map_append]
+      rw [occs_mapTags f x, occsEntries_mapTags f xs]
+end
+
+mutual
+theorem mapTags_congr (f g : Anchored → Anchored) : (d : ANode) → (∀ a ∈ occs d, f a = g a) →
+    mapTags f d = mapTags g d
+  | .scalar (some t) v => by intro h; simp [mapTags, h (t, v) (by simp [occs])]
+  | .scalar none v => by intro _; rfl
+  | .seq items => by intro h; simp only [mapTags]; rw [mapList_congr f g items (by simpa [occs] using h)]
+  | .map es => by intro h; simp only [mapTags]; rw [mapEntries_congr f g es (by simpa [occs] using h)]
+theorem mapList_congr (f g : Anchored → Anchored) : (l : List ANode) → (∀ a ∈ occs.occsList l, f a = g a) →
+    mapTags.mapList f l = mapTags.mapList g l
+  | [] => by intro _; rfl
+  | x :: xs => by
+      intro h
+      simp only [occs.occsList, List.mem_append] at h
+      simp only [mapTags.mapList]
+      rw [mapTags_congr f g x (fun a ha => h a (.inl ha)), mapList_congr f g xs (fun a ha => h a (.inr ha))]
+theorem mapEntries_congr (f g : Anchored → Anchored) : (l : List (Key × ANode)) →
+    (∀ a ∈ occs.occsEntries l, f a = g a) → mapTags.mapEntries f l = mapTags.mapEntries g l
+  | [] => by intro _; rfl
+  | (k, x) :: xs => by
+      intro h
+      simp only [occs.occsEntries, List.mem_append] at h
+      simp only [mapTags.mapEntries]
+      rw [mapTags_congr f g x (fun a ha => h a (.inl ha)), mapEntries_congr f g xs (fun a ha => h a (.inr ha))]
+end
+
+mutual
+theorem mapTags_comp (f g : Anchored → Anchored) : (d : ANode) →
+    mapTags f (mapTags g d) = mapTags (fun a => f (g a)) d
+  | .scalar (some t) v => by simp [mapTags]
+  | .scalar none v => by simp [mapTags]
+  | .seq items => by simp only [mapTags]; rw [mapList_comp f g items]
+  | .map es => by simp only [mapTags]; rw [mapEntries_comp f g es]
+theorem mapList_comp (f g : Anchored → Anchored) : (l : List ANode) →
+    mapTags.mapList f (mapTags.mapList g l) = mapTags.mapList (fun a => f (g a)) l
+  | [] => rfl
+  | x :: xs => by simp only [mapTags.mapList]; rw [mapTags_comp f g x, mapList_comp f g xs]
+theorem mapEntries_comp (f g : Anchored → Anchored) : (l : List (Key × ANode)) →
+    mapTags.mapEntries f (mapTags.mapEntries g l) = mapTags.mapEntries (fun a => f (g a)) l
+  | [] => rfl
+  | (k, x) :: xs => by simp only [mapTags.mapEntries]; rw [mapTags_comp f g x, mapEntries_comp f g xs]
+end
+
+mutual
+theorem mapTags_id : (d : ANode) → mapTags (fun a => a) d = d
+  | .scalar (some t) v => by simp [mapTags]
+  | .scalar none v => by simp [mapTags]
+  | .seq items => by simp only [mapTags]; rw [mapList_id items]
+  | .map es => by simp only [mapTags]; rw [mapEntries_id es]
+theorem mapList_id : (l : List ANode) → mapTags.mapList (fun a => a) l = l
+  | [] => rfl
+  | x :: xs => by simp only [mapTags.mapList]; rw [mapTags_id x, mapList_id xs]
+theorem mapEntries_id : (l : List (Key × ANode)) → mapTags.mapEntries (fun a => a) l = l
+  | [] => rfl
+  | (k, x) :: xs => by simp only [mapTags.mapEntries]; rw [mapTags_id x, mapEntries_id xs]
+end
+
+/-! ### Facts about `scan` (the name → node dictionary) -/
+
+/-- Dictionary well-formedness: every entry is filed under its own anchor name, keys distinct. -/
+def DictOK (d : List (Str × Anchored)) : Prop :=
+  (∀ e ∈ d, e.2.1.name = e.1) ∧ (d.map (·.1)).Nodup
+
+theorem dictSet_keys (d : List (Str × Anchored)) (k : Str) (a : Anchored) :
+    (dictSet d k a).map (·.1) = if k ∈ d.map (·.1) then d.map (·.1) else d.map (·.1) ++ [k] := by
+  induction d with
+  | nil => simp [dictSet]
+  | cons e rest ih =>
+    obtain ⟨k', a'⟩ := e
+    unfold dictSet
+    by_cases h : k' = k
+    · simp [h]
+    · have hk : ¬ k = k' := fun e => h e.symm
+      simp only [h, if_false, List.map_cons, ih, List.mem_cons, hk, false_or]
+      split <;> simp
+
+theorem dictSet_ok (d : List (Str × Anchored)) (a : Anchored) (h : DictOK d) : DictOK (dictSet d a.1.name a) := by
+  constructor
+  · induction d with
+    | nil => intro e he; simp [dictSet] at he; subst he; rfl
+    | cons e rest ih =>
+      obtain ⟨k', a'⟩ := e
+      intro e he
+      unfold dictSet at he
+      have hrest : DictOK rest := ⟨fun x hx => h.1 x (List.mem_cons_of_mem _ hx), (List.nodup_cons.1 h.2).2⟩
+      split at he
+      · rcases List.mem_cons.1 he with rfl | hm
+        · rename_i hk; simp [hk]
+        · exact h.1 e (List.mem_cons_of_mem _ hm)
+      · rcases List.mem_cons.1 he with rfl | hm
+        · exact h.1 _ List.mem_cons_self
+        · exact ih hrest e hm
+  · rw [dictSet_keys]
+    split
+    · exact h.2
+    · rename_i this
+      exact List.nodup_append.2 ⟨h.2, by simp, by intro x hx y hy; simp at hy; subst hy; intro e; subst e; exact this hx⟩
+
+theorem foldl_dictSet_ok (l : List Anchored) : ∀ (acc : List (Str × Anchored)), DictOK acc →
+    DictOK (l.foldl (fun acc a => dictSet acc a.1.name a) acc) := by
+  induction l with
+  | nil => intro acc h; exact h
+  | cons x xs ih => intro acc h; exact ih _ (dictSet_ok acc x h)
+
+theorem scan_ok (d : ANode) : DictOK (scan d) :=
+  foldl_dictSet_ok _ [] ⟨by simp, by simp⟩
+
+theorem mem_dictSet (d : List (Str × Anchored)) (k : Str) (a : Anchored) (e : Str × Anchored)
+    (h : e ∈ dictSet d k a) : e ∈ d ∨ e = (k, a) := by
+  induction d with
+  | nil => simp [dictSet] at h; exact .inr h
+  | cons x rest ih =>
+    obtain ⟨k', a'⟩ := x
+    unfold dictSet at h
+    split at h
+    · rename_i hk
+      rcases List.mem_cons.1 h with rfl | hm
+      · exact .inr (by rw [hk])
+      · exact .inl (List.mem_cons_of_mem _ hm)
+    · rcases List.mem_cons.1 h with rfl | hm
+      · exact .inl List.mem_cons_self
+      · rcases ih hm with h1 | h1
+        · exact .inl (List.mem_cons_of_mem _ h1)
+        · exact .inr h1
+
+theorem foldl_dictSet_mem (l : List Anchored) : ∀ (acc : List (Str × Anchored)) (e : Str × Anchored),
+    e ∈ l.foldl (fun acc a => dictSet acc a.1.name a) acc → e ∈ acc ∨ e.2 ∈ l := by
+  induction l with
+  | nil => intro acc e h; exact .inl h
+  | cons x xs ih =>
+    intro acc e h
+    rcases ih _ e h with h1 | h1
+    · rcases mem_dictSet acc _ _ e h1 with h2 | h2
+      · exact .inl h2
+      · exact .inr (by rw [h2]; exact List.mem_cons_self)
+    · exact .inr (List.mem_cons_of_mem _ h1)
+
+theorem foldl_dictSet_keys (l : List Anchored) : ∀ (acc : List (Str × Anchored)) (k : Str),
+    (k ∈ acc.map (·.1) ∨ ∃ a ∈ l, a.1.name = k) →
+    k ∈ (l.foldl (fun acc a => dictSet acc a.1.name a) acc).map (·.1) := by
+  induction l with
+  | nil => intro acc k h; rcases h with h | ⟨a, ha, _⟩; exact h; cases ha
+  | cons x xs ih =>
+    intro acc k h
+    apply ih
+    rcases h with h | ⟨a, ha, hk⟩
+    · left; rw [dictSet_keys]; split; exact h; exact List.mem_append_left _ h
+    · rcases List.mem_cons.1 ha with rfl | hm
+      · left; rw [dictSet_keys]; split
+        · rw [← hk]; assumption
+        · rw [hk]; simp
+      · exact .inr ⟨a, hm, hk⟩
+
+theorem lookup_of_mem_ok {d : List (Str × Anchored)} (h : (d.map (·.1)).Nodup) {k : Str} {a : Anchored}
+    (hm : (k, a) ∈ d) : d.lookup k = some a := by
+  induction d with
+  | nil => cases hm
+  | cons e rest ih =>
+    obtain ⟨k', a'⟩ := e
+    have hn := List.nodup_cons.1 h
+    rcases List.mem_cons.1 hm with he | hm'
+    · cases he; simp [List.lookup]
+    · have : k ≠ k' := by
+        intro e; subst e
+        exact hn.1 (List.mem_map.2 ⟨(k, a), hm', rfl⟩)
+      have hb : (k == k') = false := by simpa using this
+      simp only [List.lookup, hb]; exact ih hn.2 hm'
+
+theorem mem_of_lookup {d : List (Str × Anchored)} {k : Str} {a : Anchored} (h : d.lookup k = some a) :
+    (k, a) ∈ d := by
+  induction d with
+  | nil => simp [List.lookup] at h
+  | cons e rest ih =>
+    obtain ⟨k', a'⟩ := e
+    unfold List.lookup at h
+    split at h
+    · rename_i heq; cases h; have : k = k' := by simpa using heq
+      subst this; exact List.mem_cons_self
+    · exact List.mem_cons_of_mem _ (ih h)
+
+theorem lookup_isSome_of_key {d : List (Str × Anchored)} {k : Str} (h : k ∈ d.map (·.1)) :
+    ∃ a, d.lookup k = some a := by
+  induction d with
+  | nil => cases h
+  | cons e rest ih =>
+    obtain ⟨k', a'⟩ := e
+    by_cases hk : k = k'
+    · subst hk; exact ⟨a', by simp [List.lookup]⟩
+    · have : k ∈ rest.map (·.1) := by
+        rcases List.mem_cons.1 h with h1 | h1
+        · exact absurd h1 hk
+        · exact h1
+      obtain ⟨a, ha⟩ := ih this
+      have hb : (k == k') = false := by simpa using hk
+      exact ⟨a, by simp only [List.lookup, hb]; exact ha⟩
+
+/-- The dictionary entry of a name is one of the document's occurrences of that name. -/
+theorem scan_lookup_mem {d : ANode} {n : Str} {a : Anchored} (h : (scan d).lookup n = some a) :
+    a ∈ occs d ∧ a.1.name = n := by
+  have hm := mem_of_lookup h
+  refine ⟨?_, (scan_ok d).1 _ hm⟩
+  rcases foldl_dictSet_mem _ [] _ hm with h1 | h1
+  · cases h1
+  · exact h1
+
+/-- Every occurrence's name has a dictionary entry. -/
+theorem scan_lookup_of_occ {d : ANode} {a : Anchored} (h : a ∈ occs d) : ∃ b, (scan d).lookup a.1.name = some b :=
+  lookup_isSome_of_key (foldl_dictSet_keys _ [] _ (.inr ⟨a, h, rfl⟩))
+
+/-- In a document where each name has one object, the dictionary entry of an occurrence's name
+is that occurrence. -/
+theorem scan_lookup_eq_of_oneObj {d : ANode} (ho : OneObj (occs d)) {a : Anchored} (h : a ∈ occs d) :
+    (scan d).lookup a.1.name = some a := by
+  obtain ⟨b, hb⟩ := scan_lookup_of_occ h
+  obtain ⟨hb1, hb2⟩ := scan_lookup_mem hb
+  rw [hb, ho b hb1 a h hb2]
+
+end Ypv.Anchors
+
+namespace Ypv.Anchors
+open Ypv
+
+/-! ### The conflict loop in closed form -/
+
+theorem lookup_snoc (d : Dict) (n m : Str) (ra : Anchored) :
+    (d ++ [(n, ra)]).lookup m = match d.lookup m with
+      | some x => some x
+      | none => if m = n then some ra else none := by
+  induction d with
+  | nil =>
+    by_cases h : m = n
+    · simp [List.lookup, h]
+    · have : (m == n) = false := by simpa using h
+      simp [List.lookup, h, this]
+  | cons e rest ih =>
+    obtain ⟨k, a⟩ := e
+    simp only [List.cons_append, List.lookup]
+    split
+    · rfl
+    · exact ih
+
+theorem finalL_name (mode : Mode) (ls rs : Dict) (hrs : ∀ e ∈ rs, e.2.1.name = e.1) (a : Anchored) :
+    (finalL mode ls rs a).1.name = a.1.name := by
+  unfold finalL
+  split
+  · rename_i la ra h1 h2
+    have := hrs _ (mem_of_lookup h2)
+    simp only at this
+    split
+    · exact this
+    · split
+      · exact this
+      · rfl
+  · rfl
+
+theorem replaceAnchor_container (repl : Anchored) (d : ANode) (h : isContainer d = true) :
+    replaceAnchor repl d = mapTags (replF repl) d := by
+  cases d with
+  | scalar t v => simp [isContainer] at h
+  | seq items => simp only [replaceAnchor]; exact replaceIn_eq_mapTags repl _
+  | map es => simp only [replaceAnchor]; exact replaceIn_eq_mapTags repl _
+
+theorem replaceAnchor_scalar (repl : Anchored) (d : ANode) (h : isContainer d = false) :
+    replaceAnchor repl d = d := by
+  cases d with
+  | scalar t v => rfl
+  | seq items => simp [isContainer] at h
+  | map es => simp [isContainer] at h
+
+/-- Left document after the entries `done` have been processed. -/
+def Lc (mode : Mode) (ls : Dict) (l : ANode) (done : Dict) : ANode :=
+  if isContainer l then mapTags (finalL mode ls done) l else l
+
+/-- Right document after the entries `done` have been processed. -/
+def Rc (mode : Mode) (known : List Str) (ls : Dict) (r : ANode) (done : Dict) : ANode :=
+  mapTags (finalR mode known ls done) r
+
+theorem stepL_skip (mode : Mode) (ls done : Dict) (n : Str) (ra : Anchored)
+    (h : ls.lookup n = none) (a : Anchored) :
+    finalL mode ls (done ++ [(n, ra)]) a = finalL mode ls done a := by
+  unfold finalL
+  rw [lookup_snoc]
+  by_cases hn : a.1.name = n
+  · rw [hn, h]
+  · cases ls.lookup a.1.name <;> cases done.lookup a.1.name <;> simp [hn]
+
+theorem stepR_skip (mode : Mode) (known : List Str) (ls done : Dict) (n : Str) (ra : Anchored)
+    (h : ls.lookup n = none) (a : Anchored) :
+    finalR mode known ls (done ++ [(n, ra)]) a = finalR mode known ls done a := by
+  unfold finalR
+  rw [lookup_snoc]
+  by_cases hn : a.1.name = n
+  · rw [hn, h]
+  · cases ls.lookup a.1.name <;> cases done.lookup a.1.name <;> simp [hn]
+
+/-- Processing `(n, ra)` applies `replF ra` on the left exactly when the closed form says so. -/
+theorem stepL_repl (mode : Mode) (ls done : Dict) (n : Str) (la ra : Anchored)
+    (hdone : ∀ e ∈ done, e.2.1.name = e.1) (hfresh : done.lookup n = none) (hra : ra.1.name = n)
+    (hla : ls.lookup n = some la) (hc : pyEq la.2 ra.2 = true ∨ mode = .right) (a : Anchored) :
+    replF ra (finalL mode ls done a) = finalL mode ls (done ++ [(n, ra)]) a := by
+  have hname := finalL_name mode ls done hdone a
+  unfold replF
+  rw [hname, hra]
+  by_cases hn : a.1.name = n
+  · simp only [hn, if_true]
+    unfold finalL
+    rw [lookup_snoc, hn, hla, hfresh]
+    simp only [if_true]
+    rcases hc with hc | hc
+    · simp [hc]
+    · simp [hc]
+  · simp only [hn, if_false]
+    unfold finalL
+    rw [lookup_snoc]
+    cases ls.lookup a.1.name <;> cases done.lookup a.1.name <;> simp [hn]
+
+/-- … and leaves the left side alone otherwise. -/
+theorem stepL_keep (mode : Mode) (ls done : Dict) (n : Str) (la ra : Anchored)
+    (hfresh : done.lookup n = none)
+    (hla : ls.lookup n = some la) (hc : pyEq la.2 ra.2 = false) (hm : mode ≠ .right) (a : Anchored) :
+    finalL mode ls (done ++ [(n, ra)]) a = finalL mode ls done a := by
+  unfold finalL
+  rw [lookup_snoc]
+  by_cases hn : a.1.name = n
+  · rw [hn, hla, hfresh]; simp [hc, hm]
+  · cases ls.lookup a.1.name <;> cases done.lookup a.1.name <;> simp [hn]
+
+end Ypv.Anchors
+
+namespace Ypv.Anchors
+open Ypv
+
+theorem finalR_name_left (known : List Str) (ls rs : Dict) (hls : ∀ e ∈ ls, e.2.1.name = e.1)
+    (a : Anchored) : (finalR .left known ls rs a).1.name = a.1.name := by
+  unfold finalR
+  split
+  · rename_i la ra h1 h2
+    have := hls _ (mem_of_lookup h1)
+    simp only at this
+    split
+    · rfl
+    · exact this
+  · rfl
+
+theorem finalR_name_rename (known : List Str) (ls rs : Dict) (a : Anchored) :
+    (finalR .rename known ls rs a).1.name = a.1.name ∨ (finalR .rename known ls rs a).1.name ∉ known := by
+  unfold finalR
+  split
+  · split
+    · exact .inl rfl
+    · simp only []
+      split
+      · rename_i f hf; exact .inr (calcUnique_fresh _ _ _ hf)
+      · exact .inl rfl
+  · exact .inl rfl
+
+theorem stepR_keep (mode : Mode) (known : List Str) (ls done : Dict) (n : Str) (la ra : Anchored)
+    (hfresh : done.lookup n = none) (hla : ls.lookup n = some la)
+    (hc : pyEq la.2 ra.2 = true ∨ mode = .right ∨ mode = .stop) (a : Anchored) :
+    finalR mode known ls (done ++ [(n, ra)]) a = finalR mode known ls done a := by
+  unfold finalR
+  rw [lookup_snoc]
+  by_cases hn : a.1.name = n
+  · rw [hn, hla, hfresh]
+    rcases hc with hc | hc | hc <;> simp [hc]
+  · cases ls.lookup a.1.name <;> cases done.lookup a.1.name <;> simp [hn]
+
+theorem stepR_left (known : List Str) (ls done : Dict) (n : Str) (la ra : Anchored)
+    (hls : ∀ e ∈ ls, e.2.1.name = e.1) (hfresh : done.lookup n = none)
+    (hla : ls.lookup n = some la) (hc : pyEq la.2 ra.2 = false) (a : Anchored) :
+    replF la (finalR .left known ls done a) = finalR .left known ls (done ++ [(n, ra)]) a := by
+  have hname := finalR_name_left known ls done hls a
+  have hlan : la.1.name = n := hls _ (mem_of_lookup hla)
+  unfold replF
+  rw [hname, hlan]
+  by_cases hn : a.1.name = n
+  · simp only [hn, if_true]
+    unfold finalR
+    rw [lookup_snoc, hn, hla, hfresh]
+    simp [hc]
+  · simp only [hn, if_false]
+    unfold finalR
+    rw [lookup_snoc]
+    cases ls.lookup a.1.name <;> cases done.lookup a.1.name <;> simp [hn]
+
+theorem stepR_rename (known : List Str) (ls done : Dict) (n f : Str) (la ra : Anchored)
+    (hfresh : done.lookup n = none) (hn_known : n ∈ known)
+    (hla : ls.lookup n = some la) (hc : pyEq la.2 ra.2 = false) (hf : calcUnique n known = some f)
+    (a : Anchored) :
+    renF n f (finalR .rename known ls done a) = finalR .rename known ls (done ++ [(n, ra)]) a := by
+  by_cases hn : a.1.name = n
+  · have h0 : finalR .rename known ls done a = a := by
+      unfold finalR; rw [hn, hla, hfresh]
+    rw [h0]
+    unfold renF finalR
+    rw [lookup_snoc, hn, hla, hfresh]
+    simp [hc, hf]
+  · have hne : (finalR .rename known ls done a).1.name ≠ n := by
+      rcases finalR_name_rename known ls done a with h | h
+      · rw [h]; exact hn
+      · intro e; rw [e] at h; exact h hn_known
+    have h1 : renF n f (finalR .rename known ls done a) = finalR .rename known ls done a := by
+      unfold renF; simp [hne]
+    rw [h1]
+    unfold finalR
+    rw [lookup_snoc]
+    cases ls.lookup a.1.name <;> cases done.lookup a.1.name <;> simp [hn]
+
+end Ypv.Anchors
+
+namespace Ypv.Anchors
+open Ypv
+
+theorem isContainer_mapTags (f : Anchored → Anchored) (d : ANode) : isContainer (mapTags f d) = isContainer d := by
+  cases d with
+  | scalar t v => cases t <;> rfl
+  | seq items => rfl
+  | map es => rfl
+
+theorem lookup_none_of_not_key {d : Dict} {k : Str} (h : k ∉ d.map (·.1)) : d.lookup k = none := by
+  induction d with
+  | nil => rfl
+  | cons e rest ih =>
+    obtain ⟨k', a⟩ := e
+    simp only [List.map_cons, List.mem_cons, not_or] at h
+    have hb : (k == k') = false := by simpa using h.1
+    simp only [List.lookup, hb]
+    exact ih h.2
+
+theorem Lc_repl (mode : Mode) (ls : Dict) (l : ANode) (done : Dict) (n : Str) (la ra : Anchored)
+    (hdone : ∀ e ∈ done, e.2.1.name = e.1) (hfresh : done.lookup n = none) (hra : ra.1.name = n)
+    (hla : ls.lookup n = some la) (hc : pyEq la.2 ra.2 = true ∨ mode = .right) :
+    replaceAnchor ra (Lc mode ls l done) = Lc mode ls l (done ++ [(n, ra)]) := by
+  unfold Lc
+  by_cases hcont : isContainer l = true
+  · simp only [hcont, if_true]
+    rw [replaceAnchor_container _ _ (by rw [isContainer_mapTags]; exact hcont), mapTags_comp]
+    exact mapTags_congr _ _ _ (fun a _ => stepL_repl mode ls done n la ra hdone hfresh hra hla hc a)
+  · have : isContainer l = false := by simpa using hcont
+    simp only [this]
+    exact replaceAnchor_scalar _ _ this
+
+theorem Lc_keep (mode : Mode) (ls : Dict) (l : ANode) (done : Dict) (n : Str) (ra : Anchored)
+    (h : ∀ a, finalL mode ls (done ++ [(n, ra)]) a = finalL mode ls done a) :
+    Lc mode ls l done = Lc mode ls l (done ++ [(n, ra)]) := by
+  unfold Lc
+  split
+  · exact mapTags_congr _ _ _ (fun a _ => (h a).symm)
+  · rfl
+
+/-- The conflict loop equals the closed form. -/
+theorem resolveLoop_closed (mode : Mode) (known : List Str) (ls : Dict) (l r : ANode)
+    (hls : ∀ e ∈ ls, e.2.1.name = e.1) :
+    ∀ (rest done : Dict), DictOK (done ++ rest) → (∀ k ∈ (done ++ rest).map (·.1), k ∈ known) →
+      ∀ p, resolveLoop mode known ls rest (Lc mode ls l done, Rc mode known ls r done) = .ok p →
+        p = (Lc mode ls l (done ++ rest), Rc mode known ls r (done ++ rest)) := by
+  intro rest
+  induction rest with
+  | nil => intro done _ _ p h; simp [resolveLoop] at h; simp [h]
+  | cons e rest' ih =>
+    obtain ⟨n, ra⟩ := e
+    intro done hok hknown p h
+    have hassoc : done ++ (n, ra) :: rest' = (done ++ [(n, ra)]) ++ rest' := by simp
+    have hra : ra.1.name = n := hok.1 (n, ra) (by simp)
+    have hdone : ∀ e ∈ done, e.2.1.name = e.1 := fun e he => hok.1 e (List.mem_append_left _ he)
+    have hnk : n ∈ known := hknown n (by simp)
+    have hfresh : done.lookup n = none := by
+      apply lookup_none_of_not_key
+      have := hok.2
+      rw [List.map_append, List.nodup_append] at this
+      intro hmem
+      exact this.2.2 n hmem n (by simp) rfl
+    rw [hassoc] at hok hknown ⊢
+    unfold resolveLoop at h
+    split at h
+    · -- the name is not in the left document
+      rename_i hnone
+      have e1 := Lc_keep mode ls l done n ra (stepL_skip mode ls done n ra hnone)
+      have e2 : Rc mode known ls r done = Rc mode known ls r (done ++ [(n, ra)]) :=
+        mapTags_congr _ _ _ (fun a _ => (stepR_skip mode known ls done n ra hnone a).symm)
+      rw [e1, e2] at h
+      exact ih _ hok hknown p h
+    · rename_i la hla
+      split at h
+      · cases h
+      · rename_i lr' hone
+        unfold resolveOne at hone
+        split at hone
+        · -- equal values
+          rename_i heq
+          cases hone
+          have e1 := Lc_repl mode ls l done n la ra hdone hfresh hra hla (.inl heq)
+          have e2 : Rc mode known ls r done = Rc mode known ls r (done ++ [(n, ra)]) :=
+            mapTags_congr _ _ _ (fun a _ => (stepR_keep mode known ls done n la ra hfresh hla (.inl heq) a).symm)
+          simp only [] at h
+          rw [e1, e2] at h
+          exact ih _ hok hknown p h
+        · rename_i hne
+          have hne' : pyEq la.2 ra.2 = false := by simpa using hne
+          split at hone
+          · -- rename
+            split at hone
+            · rename_i f hf
+              cases hone
+              have e1 := Lc_keep .rename ls l done n ra
+                (stepL_keep .rename ls done n la ra hfresh hla hne' (by decide))
+              have e2 : rename n f (Rc .rename known ls r done) = Rc .rename known ls r (done ++ [(n, ra)]) := by
+                unfold Rc
+                rw [rename_eq_mapTags, mapTags_comp]
+                exact mapTags_congr _ _ _ (fun a _ => stepR_rename known ls done n f la ra hfresh hnk hla hne' hf a)
+              simp only [] at h
+              rw [e1, e2] at h
+              exact ih _ hok hknown p h
+            · cases hone
+          · -- left
+            cases hone
+            have e1 := Lc_keep .left ls l done n ra
+              (stepL_keep .left ls done n la ra hfresh hla hne' (by decide))
+            have e2 : replaceIn la (Rc .left known ls r done) = Rc .left known ls r (done ++ [(n, ra)]) := by
+              unfold Rc
+              rw [replaceIn_eq_mapTags, mapTags_comp]
+              exact mapTags_congr _ _ _ (fun a _ => stepR_left known ls done n la ra hls hfresh hla hne' a)
+            simp only [] at h
+            rw [e1, e2] at h
+            exact ih _ hok hknown p h
+          · -- right
+            cases hone
+            have e1 := Lc_repl .right ls l done n la ra hdone hfresh hra hla (.inr rfl)
+            have e2 : Rc .right known ls r done = Rc .right known ls r (done ++ [(n, ra)]) :=
+              mapTags_congr _ _ _ (fun a _ => (stepR_keep .right known ls done n la ra hfresh hla (.inr (.inl rfl)) a).symm)
+            simp only [] at h
+            rw [e1, e2] at h
+            exact ih _ hok hknown p h
+          · cases hone
+
+end Ypv.Anchors
+
+namespace Ypv.Anchors
+open Ypv
+
+theorem finalL_nil (mode : Mode) (ls : Dict) (a : Anchored) : finalL mode ls [] a = a := by
+  unfold finalL; cases ls.lookup a.1.name <;> simp [List.lookup]
+
+theorem finalR_nil (mode : Mode) (known : List Str) (ls : Dict) (a : Anchored) : finalR mode known ls [] a = a := by
+  unfold finalR; cases ls.lookup a.1.name <;> simp [List.lookup]
+
+theorem Lc_nil (mode : Mode) (ls : Dict) (l : ANode) : Lc mode ls l [] = l := by
+  unfold Lc
+  split
+  · rw [mapTags_congr _ (fun a => a) l (fun a _ => finalL_nil mode ls a), mapTags_id]
+  · rfl
+
+theorem Rc_nil (mode : Mode) (known : List Str) (ls : Dict) (r : ANode) : Rc mode known ls r [] = r := by
+  unfold Rc
+  rw [mapTags_congr _ (fun a => a) r (fun a _ => finalR_nil mode known ls a), mapTags_id]
+
+theorem mem_knownOf (ls rs : Dict) (k : Str) (h : k ∈ rs.map (·.1)) : k ∈ knownOf ls rs := by
+  unfold knownOf
+  by_cases hk : k ∈ ls.map (·.1)
+  · exact List.mem_append_left _ hk
+  · apply List.mem_append_right
+    simp only [List.mem_filter]
+    exact ⟨h, by simpa using hk⟩
+
+/-- `resolve` in closed form: when it succeeds, the left document is the occurrence-wise image under
+`finalL` (a scalar-root left document is left as it is) and the right document under `finalR`. -/
+theorem resolve_closed (mode : Mode) (l r : ANode) (p : ANode × ANode) (h : resolve mode l r = .ok p) :
+    p = (Lc mode (scan l) l (scan r), Rc mode (knownOf (scan l) (scan r)) (scan l) r (scan r)) := by
+  unfold resolve at h
+  simp only [] at h
+  have := resolveLoop_closed mode (knownOf (scan l) (scan r)) (scan l) l r (scan_ok l).1 (scan r) []
+    (by simpa using scan_ok r) (by intro k hk; exact mem_knownOf _ _ k (by simpa using hk)) p
+  rw [Lc_nil, Rc_nil] at this
+  simpa using this h
+
+/-- The loop fails exactly under `stop` with a conflict, and then with a merge error. -/
+theorem resolveLoop_outcome (mode : Mode) (known : List Str) (ls : Dict) :
+    ∀ (rest : Dict) (lr : ANode × ANode),
+      (mode = .stop ∧ hasConflict ls rest = true → resolveLoop mode known ls rest lr = .error .merge) ∧
+      (¬ (mode = .stop ∧ hasConflict ls rest = true) → ∃ p, resolveLoop mode known ls rest lr = .ok p) := by
+  intro rest
+  induction rest with
+  | nil => intro lr; simp [resolveLoop, hasConflict]
+  | cons e rest' ih =>
+    obtain ⟨n, ra⟩ := e
+    intro lr
+    unfold resolveLoop
+    cases hla : ls.lookup n with
+    | none =>
+      have hc : hasConflict ls ((n, ra) :: rest') = hasConflict ls rest' := by
+        simp [hasConflict, hla]
+      simp only [hc]
+      exact ih lr
+    | some la =>
+      simp only []
+      by_cases heq : pyEq la.2 ra.2 = true
+      · have hc : hasConflict ls ((n, ra) :: rest') = hasConflict ls rest' := by
+          simp [hasConflict, hla, heq]
+        simp only [hc, resolveOne, heq, if_true]
+        exact ih _
+      · have hne : pyEq la.2 ra.2 = false := by simpa using heq
+        have hc : hasConflict ls ((n, ra) :: rest') = true := by
+          simp [hasConflict, hla, hne]
+        simp only [hc, resolveOne, hne]
+        cases mode with
+        | stop => simp
+        | left => simpa using (ih _).2 (by simp)
+        | right => simpa using (ih _).2 (by simp)
+        | rename =>
+          obtain ⟨f, hf, _⟩ : ∃ f, calcUnique n known = some f ∧ True := by
+            have := calcUnique_isSome n known
+            cases hcu : calcUnique n known with
+            | none => rw [hcu] at this; cases this
+            | some f => exact ⟨f, rfl, trivial⟩
+          simp only [hf]
+          simpa using (ih _).2 (by simp)
+
+end Ypv.Anchors
+
+namespace Ypv.Anchors
+open Ypv
+
+/-! ### After resolution each anchor name has one object across both documents -/
+
+theorem finalR_name_cases (mode : Mode) (known : List Str) (ls rs : Dict) (b : Anchored)
+    (hls : ∀ e ∈ ls, e.2.1.name = e.1) :
+    (finalR mode known ls rs b).1.name = b.1.name ∨
+    (mode = .rename ∧ calcUnique b.1.name known = some (finalR mode known ls rs b).1.name
+      ∧ finalR mode known ls rs b = ({ b.1 with name := (finalR mode known ls rs b).1.name }, b.2)) := by
+  unfold finalR
+  split
+  · rename_i la ra h1 h2
+    split
+    · exact .inl rfl
+    · cases mode with
+      | stop => exact .inl rfl
+      | right => exact .inl rfl
+      | left => exact .inl (hls _ (mem_of_lookup h1))
+      | rename =>
+        simp only []
+        split
+        · rename_i f hf; exact .inr ⟨by first | rfl | trivial, hf, rfl⟩
+        · exact .inl rfl
+  · exact .inl rfl
+
+theorem key_mem_of_lookup {d : Dict} {k : Str} {a : Anchored} (h : d.lookup k = some a) : k ∈ d.map (·.1) :=
+  List.mem_map.2 ⟨(k, a), mem_of_lookup h, rfl⟩
+
+/-- Distinct names get distinct fresh names (hypothesis of `resolved_oneObj` under `rename`). -/
+def FreshInj (known : List Str) : Prop :=
+  ∀ n1 n2 f, calcUnique n1 known = some f → calcUnique n2 known = some f → n1 = n2
+
+theorem resolved_oneObj (mode : Mode) (l r : ANode)
+    (hl : OneObj (occs l)) (hr : OneObj (occs r))
+    (hstop : mode = .stop → ∀ n la ra, (scan l).lookup n = some la → (scan r).lookup n = some ra →
+      pyEq la.2 ra.2 = true)
+    (hinj : mode = .rename → FreshInj (knownOf (scan l) (scan r))) :
+    OneObj ((occs l).map (finalL mode (scan l) (scan r)) ++
+            (occs r).map (finalR mode (knownOf (scan l) (scan r)) (scan l) (scan r))) := by
+  have hls := (scan_ok l).1
+  have hrs := (scan_ok r).1
+  -- the three kinds of pairs
+  have LL : ∀ a ∈ occs l, ∀ a' ∈ occs l,
+      (finalL mode (scan l) (scan r) a).1.name = (finalL mode (scan l) (scan r) a').1.name →
+      finalL mode (scan l) (scan r) a = finalL mode (scan l) (scan r) a' := by
+    intro a ha a' ha' hn
+    rw [finalL_name _ _ _ hrs, finalL_name _ _ _ hrs] at hn
+    rw [hl a ha a' ha' hn]
+  have RR : ∀ b ∈ occs r, ∀ b' ∈ occs r,
+      (finalR mode (knownOf (scan l) (scan r)) (scan l) (scan r) b).1.name
+        = (finalR mode (knownOf (scan l) (scan r)) (scan l) (scan r) b').1.name →
+      finalR mode (knownOf (scan l) (scan r)) (scan l) (scan r) b
+        = finalR mode (knownOf (scan l) (scan r)) (scan l) (scan r) b' := by
+    intro b hb b' hb' hn
+    have kb : b.1.name ∈ knownOf (scan l) (scan r) :=
+      mem_knownOf _ _ _ (key_mem_of_lookup (scan_lookup_eq_of_oneObj hr hb))
+    have kb' : b'.1.name ∈ knownOf (scan l) (scan r) :=
+      mem_knownOf _ _ _ (key_mem_of_lookup (scan_lookup_eq_of_oneObj hr hb'))
+    rcases finalR_name_cases mode _ (scan l) (scan r) b hls with h1 | ⟨hm, h1, _⟩
+    · rcases finalR_name_cases mode _ (scan l) (scan r) b' hls with h2 | ⟨hm', h2, _⟩
+      · rw [h1, h2] at hn; rw [hr b hb b' hb' hn]
+      · exfalso
+        rw [← hn, h1] at h2
+        exact calcUnique_fresh _ _ _ h2 kb
+    · rcases finalR_name_cases mode _ (scan l) (scan r) b' hls with h2 | ⟨hm', h2, _⟩
+      · exfalso
+        rw [hn, h2] at h1
+        exact calcUnique_fresh _ _ _ h1 kb'
+      · rw [← hn] at h2
+        have := hinj hm _ _ _ h1 h2
+        rw [hr b hb b' hb' this]
+  have LR : ∀ a ∈ occs l, ∀ b ∈ occs r,
+      (finalL mode (scan l) (scan r) a).1.name
+        = (finalR mode (knownOf (scan l) (scan r)) (scan l) (scan r) b).1.name →
+      finalL mode (scan l) (scan r) a = finalR mode (knownOf (scan l) (scan r)) (scan l) (scan r) b := by
+    intro a ha b hb hn
+    have hla := scan_lookup_eq_of_oneObj hl ha
+    have hrb := scan_lookup_eq_of_oneObj hr hb
+    have ka : a.1.name ∈ knownOf (scan l) (scan r) := by
+      unfold knownOf; exact List.mem_append_left _ (key_mem_of_lookup hla)
+    rw [finalL_name _ _ _ hrs] at hn
+    rcases finalR_name_cases mode _ (scan l) (scan r) b hls with h1 | ⟨_, h1, _⟩
+    · rw [h1] at hn
+      -- same original name: a shared name
+      unfold finalL finalR
+      rw [hla, ← hn, hla, hn, hrb]
+      simp only []
+      by_cases heq : pyEq a.2 b.2 = true
+      · simp [heq]
+      · have hne : pyEq a.2 b.2 = false := by simpa using heq
+        simp only [hne]
+        cases mode with
+        | stop =>
+          have := hstop rfl b.1.name a b (by rw [← hn]; exact hla) hrb
+          rw [this] at hne; cases hne
+        | left => simp
+        | right => simp
+        | rename =>
+          simp only []
+          exfalso
+          -- under rename a conflicting right occurrence takes a fresh name, which `a`'s name is not
+          have hfr : (finalR .rename (knownOf (scan l) (scan r)) (scan l) (scan r) b).1.name ∉
+              knownOf (scan l) (scan r) := by
+            unfold finalR
+            rw [← hn, hla, hn, hrb]
+            simp only [hne]
+            obtain ⟨f, hf, hnot⟩ : ∃ f, calcUnique b.1.name (knownOf (scan l) (scan r)) = some f ∧
+                f ∉ knownOf (scan l) (scan r) := by
+              have := calcUnique_isSome b.1.name (knownOf (scan l) (scan r))
+              cases hcu : calcUnique b.1.name (knownOf (scan l) (scan r)) with
+              | none => rw [hcu] at this; cases this
+              | some f => exact ⟨f, rfl, calcUnique_fresh _ _ _ hcu⟩
+            simp [hf]; exact hnot
+          rw [h1, ← hn] at hfr
+          exact hfr ka
+    · exfalso
+      rw [← hn] at h1
+      exact calcUnique_fresh _ _ _ h1 ka
+  intro x hx y hy hxy
+  rcases List.mem_append.1 hx with hx | hx <;> rcases List.mem_append.1 hy with hy | hy
+  · obtain ⟨a, ha, rfl⟩ := List.mem_map.1 hx; obtain ⟨a', ha', rfl⟩ := List.mem_map.1 hy
+    exact LL a ha a' ha' hxy
+  · obtain ⟨a, ha, rfl⟩ := List.mem_map.1 hx; obtain ⟨b, hb, rfl⟩ := List.mem_map.1 hy
+    exact LR a ha b hb hxy
+  · obtain ⟨b, hb, rfl⟩ := List.mem_map.1 hx; obtain ⟨a, ha, rfl⟩ := List.mem_map.1 hy
+    exact (LR a ha b hb hxy.symm).symm
+  · obtain ⟨b, hb, rfl⟩ := List.mem_map.1 hx; obtain ⟨b', hb', rfl⟩ := List.mem_map.1 hy
+    exact RR b hb b' hb' hxy
 
 end Ypv.Anchors
